@@ -79,6 +79,7 @@ def run(ctx):
             q = f"{ci.qualname}" + (f"[{tname}]" if tname else "")
             with ctx.guard(q):
                 analyse(ctx, T, ci, q, reader, writer, tmem, masks)
+    fec_checker_assumption(ctx)
     ctx.require("check/indicator-truth", 2)
     ctx.require("check/in-band-sentinel", 9)
     ctx.require("check/coverage", 9)
@@ -253,3 +254,20 @@ def analyse(ctx, T, ci, q, reader, writer, tmem, masks):
         # no generate path: the constructor always recomputes; serialise(parse(w)) must re-parse as ok
         n_rt = n_rt or 1
     ctx.ob("check/roundtrip-ok", q, not bad and n_rt > 0, f"{n_rt} generating path(s); " + ("; ".join(bad[:3]) if bad else "re-parsed indicator provably True"), reader.loc)
+
+
+def fec_checker_assumption(ctx):
+    """The analysis above summarises Golay2087.check / QuadraticResidue1676.check by the folded matrices.  That assumption is
+    checked here with C06's own rule for the two classes the indicators use: the real check() accepts exactly the code."""
+    import importlib
+    from sa.report import Ctx
+    ctx.rule("assume/fec-checker-exact", "the real check() of the two FEC words' codes accepts exactly the codewords (C06 rule use/check, re-evaluated for Golay(20,8,7) and QR(16,7,6))")
+    sub = Ctx("C06", ctx.tier, ctx.seed, ctx.repo, quiet=True)
+    importlib.import_module("rules.c06").run(sub)
+    got = 0
+    for o in sub.obligations:
+        if o["rule"] == "use/check" and any(n in o["key"] for n in ("Golay2087", "QuadraticResidue1676")):
+            got += 1
+            ctx.ob("assume/fec-checker-exact", o["key"].split("|", 1)[1].strip(), o["ok"], o["detail"], o["loc"])
+    if got < 2:
+        raise AnalysisError("C06 use/check instances for Golay2087 / QuadraticResidue1676 not found")
